@@ -371,7 +371,7 @@ theorem connect_fw (g : Good B Q) (ok : Bool) (h : Fw (PB B k) s0 s) : Fw (PB B 
 theorem handleConnack_fw (g : Good B Q) (sp : Bool) (result : Nat) (ok : Bool) (h : Fw (PB B k) s0 s) :
     Fw (PB B k) s0 (s.handleConnack sp result ok).1 := by
   unfold handleConnack
-  extract_lets pre sr s1 s2 shown s3
+  extract_lets pre sr s1 shown s3
   clear_value pre
   split
   · exact h
